@@ -1,6 +1,5 @@
 import GoguVerif.Theorems.C02Inst
 import GoguVerif.Theorems.C02More
-import GoguVerif.Theorems.GenTieQS
 import GoguVerif.Theorems.C04
 import GoguVerif.Theorems.C08
 import GoguVerif.Theorems.C09
@@ -140,90 +139,9 @@ example : ∃ s, Fine.Reach (oneStep heapStep (heapMode (α := Int))) (Heap.new 
     (serialHist heapStep (Heap.new C03.ltI) .pop (.push 7)) s :=
   (overlap_serial heapStep heapMode (Heap.new C03.ltI) .pop (.push 7)).imp fun _ h => h.1
 
-/-! ## 3. Slice queue `queue.Queue` and slice stack `stack.Stack`
-
-The result types `Spec.C05.Out` / `Spec.C06.Out` of the models `Model.Queue.step` / `Model.Stack.step`
-have NO panic outcome, and the state is the bare `items` slice (no counter, hence no representation
-invariant beyond `True`): at the level of the hand-written model "never panics" is built into the
-type.  The content is therefore taken from the REGENERATED Go methods (`Gen/Containers.lean`, tied to
-the model in `Theorems/GenTieQS.lean`; element type `Int`), whose index and slice expressions fail
-exactly when Go panics: `queueGoOk items op` / `stackGoOk items op` say that the regenerated method of
-`op`, run on the field value `items`, returns normally.  They hold for EVERY `items`
-(`queue_go_total`, `stack_go_total`), in particular for the state at each linearization point. -/
-section SliceQS
-open GoguVerif.Gen.Containers
-
-/-- the regenerated Go method of `queue.Queue` for `op`, run on `items`, returns normally.
-`Enqueue`, `Size`, `Clear` are regenerated with a plain (non-`Res`) type: they contain no index, slice
-or division expression, so they cannot panic by construction of the translation. -/
-def queueGoOk (items : List Int) : Spec.C05.Op Int → Prop
-  | .dequeue => ∃ r, queue.Queue_Dequeue items = Except.ok r
-  | .peek => ∃ v, queue.Queue_Peek items = Except.ok v
-  | .search x => ∃ b, queue.Queue_Search items x = Except.ok b
-  | .enqueue _ => True
-  | .size => True
-  | .clear => True
-
-theorem queue_go_total (items : List Int) (op : Spec.C05.Op Int) : queueGoOk items op := by
-  cases op with
-  | dequeue => exact ⟨_, GenTieQS.queue_dequeue_tie items⟩
-  | peek => exact (GenTieQS.queue_peek_tie items).2
-  | search x => exact ⟨_, (GenTieQS.queue_search_tie items x).1⟩
-  | enqueue _ => trivial
-  | size => trivial
-  | clear => trivial
-
-/-- the same for `stack.Stack` (`Push`, `Size` regenerated with a plain type) -/
-def stackGoOk (items : List Int) : Spec.C06.Op Int → Prop
-  | .pop => ∃ r, stack.Stack_Pop items = Except.ok r
-  | .peek => ∃ v, stack.Stack_Peek items = Except.ok v
-  | .search x => ∃ b, stack.Stack_Search items x = Except.ok b
-  | .push _ => True
-  | .size => True
-
-theorem stack_go_total (items : List Int) (op : Spec.C06.Op Int) : stackGoOk items op := by
-  cases op with
-  | pop => exact ⟨_, GenTieQS.stack_pop_tie items⟩
-  | peek => exact (GenTieQS.stack_peek_tie items).2
-  | search x => exact ⟨_, (GenTieQS.stack_search_tie items x).1⟩
-  | push _ => trivial
-  | size => trivial
-
-/-- **Slice queue.**  Goroutines calling `Enqueue`/`Dequeue`/`Peek`/`Search`/`Size`/`Clear`
-concurrently, from ANY initial slice (the model has no invariant to assume; `True` is preserved):
-every linearized and every returned answer is the model's answer in some state `s0` in which the
-regenerated Go method of that operation returns normally (no index/slice panic). -/
-theorem queue_concurrent_never_panics {init : List Int} {h s}
-    (r : Fine.Reach (oneStep Model.Queue.step (queueMode (α := Int))) init h s) :
-    (∀ p ∈ linOps h, ∃ s0, queueGoOk s0 p.1 ∧ p.2 = (Model.Queue.step s0 p.1).2) ∧
-      (∀ t c op res, Ev.ret t c op res ∈ h →
-        ∃ s0, queueGoOk s0 op ∧ res = (Model.Queue.step s0 op).2) := by
-  obtain ⟨_, g1, g2⟩ := oneStep_preserves_at queueModel_observers (fun _ => True) queueGoOk
-    (fun s op _ => ⟨trivial, queue_go_total s op⟩) (init := init) trivial r
-  exact ⟨fun p hp => (g1 p hp).imp fun _ h => h.2, fun t c op res hm => (g2 t c op res hm).imp fun _ h => h.2⟩
-
-/-- **Slice stack.**  As `queue_concurrent_never_panics`, for `Push`/`Pop`/`Peek`/`Search`/`Size`. -/
-theorem stack_concurrent_never_panics {init : List Int} {h s}
-    (r : Fine.Reach (oneStep Model.Stack.step (stackMode (α := Int))) init h s) :
-    (∀ p ∈ linOps h, ∃ s0, stackGoOk s0 p.1 ∧ p.2 = (Model.Stack.step s0 p.1).2) ∧
-      (∀ t c op res, Ev.ret t c op res ∈ h →
-        ∃ s0, stackGoOk s0 op ∧ res = (Model.Stack.step s0 op).2) := by
-  obtain ⟨_, g1, g2⟩ := oneStep_preserves_at stackModel_observers (fun _ => True) stackGoOk
-    (fun s op _ => ⟨trivial, stack_go_total s op⟩) (init := init) trivial r
-  exact ⟨fun p hp => (g1 p hp).imp fun _ h => h.2, fun t c op res hm => (g2 t c op res hm).imp fun _ h => h.2⟩
-
-/-- non-vacuity: `Dequeue` on the EMPTY queue overlapping `Peek` (the calls that would index out of
-range without the emptiness test) is a reachable history -/
-example : ∃ s, Fine.Reach (oneStep Model.Queue.step (queueMode (α := Int))) []
-    (serialHist Model.Queue.step [] .dequeue .peek) s :=
-  (overlap_serial Model.Queue.step queueMode [] .dequeue .peek).imp fun _ h => h.1
-example : ∃ s, Fine.Reach (oneStep Model.Stack.step (stackMode (α := Int))) []
-    (serialHist Model.Stack.step [] .pop .peek) s :=
-  (overlap_serial Model.Stack.step stackMode [] .pop .peek).imp fun _ h => h.1
-/-- the predicate is not trivially true: it is false of a method that does panic -/
-example : ¬ ∃ v, Gen.Funcs.goIdx ([] : List Int) 0 = Except.ok v := by simp [Gen.Funcs.goIdx]
-
-end SliceQS
+/-! ## 3. Slice queue and slice stack: see `Theorems/C01NoPanicGen.lean` (these theorems speak about the REGENERATED Go
+methods and therefore live with the advisory regenerated tie, so that a rewrite of `queue.go` / `stack.go` that leaves the
+translated fragment cannot take the other theorems of this file down with it). -/
 
 /-! ## 4. BST `bstree.BsTree`
 
